@@ -167,7 +167,7 @@ def specialise_single(eng: Engine, key: str, index_depth: int = 1):
     f = eng.repo.func(eng.single_field_routine)
     params = f.params
     bind = {params[1]: ("const", key)}
-    return SymEval(eng.ce, f, bind=bind).run()
+    return eng.symeval(f.qualname, bind=bind)
 
 
 def derived_counts(eng: Engine, ctx: Ctx, rid: str) -> int:
@@ -201,7 +201,7 @@ def derived_counts(eng: Engine, ctx: Ctx, rid: str) -> int:
         else:
             ctx.check(not calls, rid, f.qualname, f"map builder not invoked at {src}", expected="no call", found=f"{len(calls)} call(s)", **loc)
     # no other field triggers the map builder / counter stores: evaluate with a generic key
-    se = SymEval(eng.ce, f).run()
+    se = eng.symeval(f.qualname)
     for e in se.effects:
         if e.kind == "call" and is_self_call(e.term, mb.name):
             n += 1
@@ -251,7 +251,7 @@ def crc_transfer(eng: Engine, ctx: Ctx, rid: str):
     g, deg = crc["poly"], crc["width"]
     f = eng.repo.func("rtcmhelpers.calc_crc24q")
     ctx.touch(func=f.qualname, file=eng.repo.relpath(f.module))
-    se = SymEval(eng.ce, f, unroll=64).run()
+    se = eng.symeval(f.qualname, unroll=64)
     loc = eng.loc(f, f.node)
     msg = ("param", f.params[0])
     outer = [(lid, info) for lid, info in se.loop_info.items() if info.get("unrolled") is None and isinstance(info["node"], ast.For)]
@@ -323,6 +323,13 @@ def _crc_literal(c, pol, msgparam):
         arg = c[3][3][0]
         zero = (c[1] == "==") == pol
     if arg is None:
+        # equivalent idiom: CRC over everything but the trailer compared with the 3 trailer bytes (big endian)
+        if c[0] == "cmp" and c[1] in ("==", "!="):
+            for a, b in ((c[2], c[3]), (c[3], c[2])):
+                if _is_crc_call(a, msgparam) and a[3][0] == ("slice", msgparam, ("const", None), ("const", -3), ("const", None)) and b[0] == "call" and b[2] == ("attr", ("builtin", "int"), "from_bytes"):
+                    order = b[3][1] if len(b[3]) > 1 else dict(b[4]).get("byteorder")
+                    if b[3] and b[3][0] == ("slice", msgparam, ("const", -3), ("const", None), ("const", None)) and order == ("const", "big") and dict(b[4]).get("signed", ("const", False)) == ("const", False):
+                        return True if (c[1] == "==") == pol else "nonzero"
         return None
     if not zero:
         return "nonzero"
@@ -1161,3 +1168,35 @@ def reader_option_fields(eng: Engine) -> dict:
                 if leaf[0] == "param":
                     out.setdefault(leaf[1], e.target[1])
     return out
+
+
+# ============================================================================ socket receiver: end of stream is reported (C11-D4, shared with C04-D3)
+def receiver_reports_close(eng: Engine, ctx: Ctx, rid: str):
+    ctx.rule(rid, "the socket receiver returns False exactly when recv() itself returned no bytes (tested on the raw result, before anything is prepended or stored): "
+                  "the refill loop of read() can therefore not spin on a closed socket")
+    rv = eng.repo.func(eng.socket_receiver)
+    sv = eng.symeval(rv.qualname)
+    sockf = eng.socket_field
+    recvs = [e for e in sv.effects if e.kind == "call" and e.term[2][0] == "attr" and e.term[2][1][0] in ("field", "fieldv") and e.term[2][1][1] == sockf and e.term[2][2] == "recv"]
+    loc = eng.loc(rv, rv.node)
+    if len(recvs) != 1:
+        ctx.bad(rid, rv.qualname, "recv call", expected="one recv() per receiver call", found=str(len(recvs)), **loc)
+        return
+    data = recvs[0].term
+
+    def empty_lit(c, pol):
+        if c[0] == "cmp" and c[3] == ("const", 0) and c[2][0] == "call" and c[2][2] == ("builtin", "len") and c[2][3] == (data,):
+            return (c[1] == "==" and pol) or (c[1] in ("!=", ">") and not pol)
+        if c == data:
+            return not pol
+        if c[0] == "cmp" and c[2] == data and c[3] == ("const", b""):
+            return (c[1] == "==" and pol) or (c[1] == "!=" and not pol)
+        return False
+
+    rets = [e for e in sv.effects if e.kind == "return" and e.handler is None and any(empty_lit(c, p) for c, p in e.guards)]
+    ok = len(rets) >= 1 and all(e.term == ("const", False) for e in rets)
+    stores_before = [e for e in sv.effects if rets and e.seq < rets[0].seq and e.kind in ("store", "aug", "setitem")]
+    ctx.check(ok and not stores_before, rid, rv.qualname, "closed socket detected on the raw recv() result", expected="`if len(data) == 0: return False` on the value recv() returned, before any store",
+              found=(f"{len(rets)} such return(s)" + (f", {len(stores_before)} store(s) before it" if stores_before else "")) if rets else
+              "no `return False` guarded by the emptiness of recv()'s own result: " + "; ".join(guard_text(e.guards)[:80] for e in sv.effects if e.kind == "return" and e.term == ("const", False) and e.handler is None),
+              **eng.loc(rv, (rets or recvs)[0].node))
